@@ -21,7 +21,7 @@ def gen(tier, seed):
     L = 6 if tier == 'quick' else 8
     exhaustive = {}
     # the space delimiter has its own code path (no whitespace allowed around quoted fields); `::` overlaps with itself
-    for d, alpha in ((',', '", a'), ('##', '"# a'), (' ', '" a'), ('::', '": a')):
+    for d, alpha in ((',', '", a'), ('##', '"# a'), (' ', '" a'), ('::', '": a'), (', ', '", a')):      # `, `: a delimiter CONTAINING a space (spaces around quoted fields stay allowed)
         for s in csvgen.all_strings(alpha, L + 2 if len(alpha) == 3 else L):
             lines.append('split quoted 0 %s %s' % (enc_str(d), enc_str(s)))
     exhaustive['split quoted len<=%d' % L] = True
@@ -46,7 +46,7 @@ def gen(tier, seed):
     for _ in range(3000 if tier == 'quick' else 40000):
         t = csvgen.random_csv_text(rnd, extra='﻿')
         pol = rnd.choice(['quoted', 'quoted_rfc', 'simple', 'whitespace', 'monocolumn'])
-        d = ' ' if pol == 'whitespace' else rnd.choice([',', ';', '##', '\t', '¦', ' ', '::'])
+        d = ' ' if pol == 'whitespace' else rnd.choice([',', ';', '##', '\t', '¦', ' ', '::', ', ', ' | ', ' ,'])
         comment = rnd.choice([None, '#', '##', 'a'])
         lines.append('readboth %s utf-8 %s %s %s %s %s' % (pol, rnd.choice('01'), rnd.choice(['n', 'n', 'h', 'N']), enc_str(d),
                                                            '~' if comment is None else enc_str(comment), enc_str(t)))
